@@ -174,6 +174,8 @@ def atom_range(a):
     k = a.k
     if k == "idx":
         return (0, 255)
+    if k == "boolatom":
+        return (0, 1)
     if k == "unpacked":
         f = a.a[0].lstrip("!<>=@")
         return FMT_RANGE.get(f, (None, None))
@@ -316,6 +318,12 @@ def to_dnf(t, positive=True):
                 if len(conj) > MAX_CASES:
                     raise TooManyCases()
             return conj
+        if o in ("in", "notin"):
+            # membership in a table that is not a literal: an uninterpreted proposition.  The same test is the same
+            # 0/1 atom wherever it occurs (facts and goal), which is all propositional reasoning needs.
+            p = T("boolatom", T("op", "in", a, b, ty="bool"), ty="int")
+            holds = (o == "in") == positive
+            return [[Lin({p: 1}, -1)]] if holds else [[Lin({p: -1}, 0)]]
         return _drop()
     if t.k == "un" and t.a[0] == "bool":
         x = t.a[1]
